@@ -52,4 +52,18 @@ VARIANTS = [
          edits=[dict(file=SP, old="template <typename P>\nstruct Mts\n{\n    P& port;\n};", new="template <typename P>\nstruct Mts : Sts<P>\n{\n};")]),
     dict(id='c02-strict-comment-ok', prop='C02', tier='thorough', expect='silent',
          edits=[dict(file=SP, old="// Enclosure for a port that conforms to Multi-threaded Runtime Semantics (MTS)", new="// Enclosure for a port that conforms to Multi-threaded Runtime Semantics (MTS); not convertible to Sts")]),
+    # ---- C06.odr (found by an independent seeded change: the template turned into two plain overloads) ---------------
+    dict(id='c06-odr-helper-not-inline', prop='C06', expect='violation', rule='C06.odr',
+         edits=[dict(file='support_files/misc_utils.py', old="    return result;\n}\n\"\"\")  # noqa: E501", new="    return result;\n}\n\nbool IsBlank(const std::string& str)\n{\n    return str.empty();\n}\n\"\"\")  # noqa: E501")]),
+    dict(id='c06-odr-helper-inline-ok', prop='C06', expect='silent',
+         edits=[dict(file='support_files/misc_utils.py', old="    return result;\n}\n\"\"\")  # noqa: E501", new="    return result;\n}\n\ninline bool IsBlank(const std::string& str)\n{\n    return str.empty();\n}\n\"\"\")  # noqa: E501")]),
+    dict(id='c06-odr-namespace-variable', prop='C06', expect='violation', rule='C06.odr',
+         edits=[dict(file='support_files/misc_utils.py', old="    return result;\n}\n\"\"\")  # noqa: E501", new="    return result;\n}\n\nint g_capitalizeCalls = 0;\n\"\"\")  # noqa: E501")]),
+    # ---- C11.deliver-under-lock: who keeps the lock-and-data object alive (found by an independent seeded change) -------
+    dict(id='c11-selection-const-ref-holder-ok', prop=['C11', 'C04', 'C01'], expect='silent',
+         edits=[dict(file=PR, old="              f'    auto lockAndData = {port.accessor_target}.CurrentClient();\\n' \\\n              '    if (lockAndData->has_value()) lockAndData->value().get().dznPort.out.' \\\n", new="              f'    const auto& lockAndData = {port.accessor_target}.CurrentClient();\\n' \\\n              '    if (lockAndData->has_value()) lockAndData->value().get().dznPort.out.' \\\n")]),
+    dict(id='c11-selection-renamed-holder-ok', prop=['C11', 'C04', 'C01'], expect='silent',
+         edits=[dict(file=PR, old="              f'    auto lockAndData = {port.accessor_target}.CurrentClient();\\n' \\\n              '    if (lockAndData->has_value()) lockAndData->value().get().dznPort.out.' \\\n", new="              f'    auto current = {port.accessor_target}.CurrentClient();\\n' \\\n              '    if (current->has_value()) current->value().get().dznPort.out.' \\\n")]),
+    dict(id='c11-selection-dereferenced-temporary', prop='C11', expect='violation', rule='C11.deliver-under-lock',
+         edits=[dict(file=PR, old="              f'    auto lockAndData = {port.accessor_target}.CurrentClient();\\n' \\\n              '    if (lockAndData->has_value()) lockAndData->value().get().dznPort.out.' \\\n", new="              f'    auto& sel = *{port.accessor_target}.CurrentClient();\\n' \\\n              '    if (sel.has_value()) sel.value().get().dznPort.out.' \\\n")]),
 ]
